@@ -103,6 +103,12 @@ def accounting(v, prog_id, scope, p, c, prop="c03"):
         if l in emitted_l:
             continue
         if not tzdb['removed_links'].get(l):
+            if any(l == dl for _, dl in p.get("earlier_links", [])):
+                # known mechanism (see known_findings.json): a link name listed on more than one Link line
+                v.violation(prop + ":link-listed-twice-dropped-without-reason",
+                            "a link name that the source lists on two Link lines (zic: the last one wins) is left out of the database without being listed as removed",
+                            {"program": prog_id, "scope": scope, "link": l})
+                continue
             v.violation(prop + ":link-silently-dropped", "input link neither emitted nor listed as removed with a reason",
                         {"program": prog_id, "scope": scope, "link": l})
     # emitted links point to emitted zones, with the input's target
